@@ -51,7 +51,8 @@ def gen_input(seed):
         if g.chance(0.2):
             sp['comp'] = 'VTODO'
         if g.chance(0.15):
-            sp['cmd'] = 'x' * g.pick([990, 1010, 1015, 1022, 1023, 1024, 1030, 2000])
+            # (SUMMARY: + n bytes: lines just below, at and above the parser's 2048 byte line store)
+            sp['cmd'] = 'x' * g.pick([990, 1015, 1023, 1024, 2000, 2036, 2037, 2038, 2039, 2040, 2041, 2042, 2043, 2044, 2050, 4090])
         if g.chance(0.2):
             # escapes (dump equality only; no claim about their meaning)
             sp['desc'] = g.pick(['a\\nb', 'semi\\;colon', 'back\\\\slash', 'comma\\,x', 'q\\"q', 'end\\'])
